@@ -1,5 +1,6 @@
 import SqlframeModel.Codec.Basic
 import SqlframeModel.Impl.C17
+import SqlframeModel.Impl.C17Soundex
 namespace Sqlframe.C17
 open Lean
 
